@@ -46,12 +46,31 @@ def impl_functions(_: dict) -> dict:
     X, Y = np.zeros((2, 3), dtype=np.float32), np.zeros((3,), dtype=np.int32)
     problems, n = [], 0
     base = {"A": A, "B": B, "X": X, "Y": Y, "DEFAULT_Y": Y, "dltype": dltype}
-    for params, calls in SIGS:
+    import re
+
+    # every signature three times: hints resolvable at decoration time; hints as quoted forward references to names defined only
+    # after the function (resolved at the first call); the same with one call made while the names are still undefined (R18a, R18d)
+    for (params, calls), lazy in itertools.product(SIGS, ("eager", "lazy", "lazy_called_early")):
         ns = dict(base)
-        src = (f"def plain({params}) -> A:\n    '''doc of f'''\n    SEEN.append(dict(locals()))\n    return X\n"
-               f"@dltype.dltyped()\ndef checked({params}) -> A:\n    '''doc of f'''\n    SEEN.append(dict(locals()))\n    return X\n")
+        ret = "A"
+        if lazy != "eager":
+            del ns["A"], ns["B"]
+            params = re.sub(r":\s*([AB])\b", r": '\1'", params) + "  "
+            ret = "'A'"
+        src = (f"def plain({params}) -> {ret}:\n    '''doc of f'''\n    SEEN.append(dict(locals()))\n    return X\n"
+               f"@dltype.dltyped()\ndef checked({params}) -> {ret}:\n    '''doc of f'''\n    SEEN.append(dict(locals()))\n    return X\n")
         ns["SEEN"] = []
         exec(compile(src, "<c16>", "exec", dont_inherit=True), ns)  # noqa: S102
+        if lazy == "lazy_called_early":
+            with warnings.catch_warnings():
+                warnings.simplefilter("ignore")
+                try:
+                    eval("checked" + calls[0], ns)  # noqa: S307
+                except BaseException:  # noqa: BLE001, S110
+                    pass
+            ns["SEEN"].clear()
+        ns["A"], ns["B"] = A, B
+        params = params.strip() + ("" if lazy == "eager" else f"   [{lazy}]")
         p, c = ns["plain"], ns["checked"]
         if c.__doc__ != p.__doc__ or c.__name__ != "checked" or c.__qualname__ != "checked" or c.__module__ != p.__module__:
             problems.append({"what": "metadata not preserved", "params": params, "name": c.__name__, "doc": c.__doc__})
